@@ -1,6 +1,6 @@
 (* C19: one step of the plain-class model against the specification.
-   Invariant: no instance carries a left-over row_update_sig_suppress flag;
-   it is kept by every operation outside the trigger class of the finding. *)
+   Key fact: _SO_setValue is set() of the one-entry dict, whatever the
+   receivers of RowUpdateSignal do to its key set (since 480ba65). *)
 From Coq Require Import List ZArith NArith Bool Lia.
 From Model Require Import Events.
 From Proofs Require Import EventsBase.
@@ -31,27 +31,6 @@ Proof.
     + destruct (Z.eqb id' i); [reflexivity|exact IH].
 Qed.
 
-Definition clean_k (s : kstate) : Prop := forall id h, h_get id (k_hs s) = Some h -> h_sup h = false.
-Definition clean (st : state) : Prop := forall k, clean_k (ks st k).
-
-Lemma clean_init : clean init.
-Proof. intros k id h H. destruct k; simpl in H; discriminate. Qed.
-
-Lemma clean_put s id h t n :
-  clean_k s -> h_sup h = false -> clean_k {| k_tbl := t; k_next := n; k_hs := h_put id h (k_hs s) |}.
-Proof.
-  intros Hc Hh id' h' H. simpl in H.
-  destruct (Z.eq_dec id' id) as [->|Hn].
-  - rewrite h_get_put_same in H. inversion H; subst. exact Hh.
-  - rewrite h_get_put_other in H by exact Hn. exact (Hc _ _ H).
-Qed.
-Lemma clean_set st k x : clean st -> clean_k x -> clean (set_ks st k x).
-Proof.
-  intros Hc Hx k'. destruct (cls_dec k k') as [<-|Hn].
-  - rewrite ks_set_same. exact Hx.
-  - rewrite ks_set_other by exact Hn. apply Hc.
-Qed.
-
 (* ------------------------------------------------------------------ small computations *)
 Lemma sort_cols_single c v : sort_cols [(c, v)] = [(c, v)].
 Proof. destruct c; reflexivity. Qed.
@@ -79,100 +58,66 @@ Proof. reflexivity. Qed.
 Lemma is_nil_true {A} (l : list A) : is_nil l = true -> l = [].
 Proof. destruct l; [reflexivity|discriminate]. Qed.
 
-(* ------------------------------------------------------------------ the update paths, flag clear *)
-Lemma set_core_clean g k id pend kw :
+(* ------------------------------------------------------------------ the update paths *)
+Lemma set_core_plain g k id pend kw :
   set_core g k id pend false kw =
   let L := sel SUpdate (tab g k) in
   let tr1 := sig_events SUpdate k (Some id) L kw in
   let kw1 := final_kw SUpdate L kw in
   if negb (validate kw1) then
-    {| u_out := Exn XInvalid; u_tr := tr1; u_pend := pend; u_sup := false; u_upds := [] |}
+    {| u_out := Exn XInvalid; u_tr := tr1; u_pend := pend; u_upds := [] |}
   else if is_lazy k then
-    {| u_out := Done; u_tr := tr1; u_pend := kw_update pend kw1; u_sup := false; u_upds := [] |}
+    {| u_out := Done; u_tr := tr1; u_pend := kw_update pend kw1; u_upds := [] |}
   else
     let w := sort_cols kw1 in
     {| u_out := Done;
        u_tr := tr1 ++ (if is_nil w then [] else [EWrite (WUpdate k id w)]) ++ after_part (tab g k) SUpdated k id;
-       u_pend := pend; u_sup := false;
+       u_pend := pend;
        u_upds := if is_nil w then [] else [w] |}.
 Proof. reflexivity. Qed.
 
-Lemma keeps_key_single g k c v :
-  assign_keeps_key g k c v = true ->
-  exists v', final_kw SUpdate (sel SUpdate (tab g k)) [(c, v)] = [(c, v')].
+(* an attribute assignment is set() of the one-entry dict -- whatever the
+   receivers do to its key set *)
+Lemma assign_core_is_set g k id pend c v :
+  assign_core g k id pend c v = set_core g k id pend false [(c, v)].
 Proof.
-  unfold assign_keeps_key. intros H. apply andb_true_iff in H. destruct H as [H1 H2].
-  destruct (final_kw SUpdate (sel SUpdate (tab g k)) [(c, v)]) as [|[c0 v0] [|? ?]]; simpl in H1; try discriminate.
-  unfold kw_has in H2. simpl in H2. destruct (col_eqb c c0) eqn:E; [|discriminate].
-  apply col_eqb_eq in E. subst. eauto.
+  unfold assign_core, set_core.
+  remember (final_kw SUpdate (sel SUpdate (tab g k)) [(c, v)]) as d eqn:Hd.
+  destruct (negb (Nat.eqb (length d) 1) || negb (kw_has c d)) eqn:Edel.
+  - (* delegated *)
+    destruct (negb (validate d)); cbn [u_out u_tr u_pend u_upds]; [rewrite app_nil_r; reflexivity|].
+    destruct (is_lazy k); cbn [u_out u_tr u_pend u_upds]; [rewrite app_nil_r; reflexivity|reflexivity].
+  - apply orb_false_iff in Edel. destruct Edel as [E1 E2].
+    apply negb_false_iff in E1. apply negb_false_iff in E2.
+    destruct d as [|[c0 v0] [|? ?]]; simpl in E1; try discriminate.
+    unfold kw_has in E2. simpl in E2. destruct (col_eqb c c0) eqn:E; [|discriminate].
+    apply col_eqb_eq in E. subst c0. cbn [kw_get]. rewrite col_eqb_refl.
+    unfold validate. cbn [forallb fst snd]. rewrite andb_true_r.
+    destruct (negb (val_ok (col_ty c) v0)); [reflexivity|].
+    rewrite sort_cols_single. destruct (is_lazy k); reflexivity.
 Qed.
 
-Lemma assign_core_clean g k id pend c v v' :
-  final_kw SUpdate (sel SUpdate (tab g k)) [(c, v)] = [(c, v')] ->
-  assign_core g k id pend false c v =
-  let tr1 := sig_events SUpdate k (Some id) (sel SUpdate (tab g k)) [(c, v)] in
-  if negb (val_ok (col_ty c) v') then
-    {| u_out := Exn XInvalid; u_tr := tr1 ++ []; u_pend := pend; u_sup := false; u_upds := [] |}
-  else if is_lazy k then
-    {| u_out := Done; u_tr := tr1 ++ []; u_pend := kw_set c v' pend; u_sup := false; u_upds := [] |}
-  else
-    {| u_out := Done;
-       u_tr := (tr1 ++ []) ++ [EWrite (WUpdate k id [(c, v')])] ++ after_part (tab g k) SUpdated k id;
-       u_pend := pend; u_sup := false; u_upds := [] ++ [[(c, v')]] |}.
-Proof.
-  intros Hd. unfold assign_core. rewrite Hd. simpl length. simpl Nat.eqb.
-  unfold kw_has. simpl kw_get. rewrite col_eqb_refl. simpl. reflexivity.
-Qed.
-
-(* ------------------------------------------------------------------ the invariant *)
-Lemma step_clean g st o : clean st -> op_guard g o = true -> clean (fst (fst (step g st o))).
-Proof.
-  intros Hc Hg. destruct o as [k kw0|k id c v|k id kw0|k id|k id|k id fr|k]; unfold step.
-  - (* create *)
-    destruct (fill_defaults all_cols _) as [kw2|]; [|exact Hc].
-    destruct (negb (validate kw2)); [exact Hc|]. simpl.
-    apply clean_set; [exact Hc|]. apply clean_put; [apply Hc|reflexivity].
-  - (* assign *)
-    unfold with_handle. destruct (h_get id (k_hs (ks st k))) as [h|] eqn:Hh; [|exact Hc].
-    rewrite (Hc k id h Hh). simpl in Hg. destruct (keeps_key_single _ _ _ _ Hg) as [v' Hv].
-    rewrite (assign_core_clean _ _ _ _ _ _ _ Hv). cbv zeta. unfold commit_ures.
-    destruct (negb (val_ok (col_ty c) v')); [|destruct (is_lazy k)]; simpl;
-      (apply clean_set; [exact Hc|]; apply clean_put; [apply Hc|reflexivity]).
-  - (* set *)
-    unfold with_handle. destruct (h_get id (k_hs (ks st k))) as [h|] eqn:Hh; [|exact Hc].
-    rewrite (Hc k id h Hh), set_core_clean. cbv zeta. unfold commit_ures.
-    destruct (negb (validate _)); [|destruct (is_lazy k)]; simpl;
-      (apply clean_set; [exact Hc|]; apply clean_put; [apply Hc|reflexivity]).
-  - (* sync *)
-    unfold with_handle. destruct (h_get id (k_hs (ks st k))) as [h|] eqn:Hh; [|exact Hc].
-    unfold sync_core, commit_ures. pose proof (Hc k id h Hh) as Hs.
-    destruct (is_nil (h_pend h)); simpl;
-      (apply clean_set; [exact Hc|]; apply clean_put; [apply Hc|exact Hs]).
-  - (* destroy *)
-    unfold with_handle. destruct (h_get id (k_hs (ks st k))) as [h|] eqn:Hh; [|exact Hc].
-    simpl. apply clean_set; [exact Hc|]. intros id' h' H. simpl in H. exact (Hc k _ _ H).
-  - destruct (tbl_has id _); exact Hc.
-  - exact Hc.
-Qed.
+Lemma step_assign_is_set g st k id c v : step g st (OAssign k id c v) = step g st (OSet k id [(c, v)]).
+Proof. unfold step, with_handle. destruct (h_get id _); [|reflexivity]. rewrite assign_core_is_set. reflexivity. Qed.
 
 (* ------------------------------------------------------------------ a successful step is the documented one *)
 Lemma step_spec g st o :
-  clean st -> op_guard g o = true -> succeeded (snd (fst (step g st o))) = true ->
-  snd (step g st o) = spec_events g st o.
+  succeeded (snd (fst (step g st o))) = true -> snd (step g st o) = spec_events g st o.
 Proof.
-  intros Hc Hg. destruct o as [k kw0|k id c v|k id kw0|k id|k id|k id fr|k]; unfold step.
+  destruct o as [k kw0|k id c v|k id kw0|k id|k id|k id fr|k];
+    [|rewrite step_assign_is_set; change (spec_events g st (OAssign k id c v)) with (spec_events g st (OSet k id [(c, v)]));
+      set (kw0 := [(c, v)])| | | | |]; unfold step.
   - destruct (fill_defaults all_cols _) as [kw2|] eqn:Hf; [|simpl; discriminate].
     destruct (negb (validate kw2)); [simpl; discriminate|]. simpl. intros _.
     rewrite (fill_defaults_with _ _ Hf). reflexivity.
   - unfold with_handle, spec_events.
     destruct (h_get id (k_hs (ks st k))) as [h|] eqn:Hh; [|simpl; discriminate].
-    rewrite (Hc k id h Hh). simpl in Hg. destruct (keeps_key_single _ _ _ _ Hg) as [v' Hv].
-    rewrite (assign_core_clean _ _ _ _ _ _ _ Hv), Hv, sort_cols_single. cbv zeta. unfold commit_ures.
-    destruct (negb (val_ok (col_ty c) v')); [simpl; discriminate|].
-    destruct (is_lazy k); simpl; intros _; rewrite !app_nil_r; reflexivity.
+    rewrite set_core_plain. cbv zeta. unfold commit_ures.
+    destruct (negb (validate _)); [simpl; discriminate|].
+    destruct (is_lazy k); simpl; intros _; rewrite ?app_nil_r; reflexivity.
   - unfold with_handle, spec_events.
     destruct (h_get id (k_hs (ks st k))) as [h|] eqn:Hh; [|simpl; discriminate].
-    rewrite (Hc k id h Hh), set_core_clean. cbv zeta. unfold commit_ures.
+    rewrite set_core_plain. cbv zeta. unfold commit_ures.
     destruct (negb (validate _)); [simpl; discriminate|].
     destruct (is_lazy k); simpl; intros _; rewrite ?app_nil_r; reflexivity.
   - unfold with_handle, spec_events, pend_of.
@@ -184,7 +129,7 @@ Proof.
   - reflexivity.
 Qed.
 
-(* fetching: no event of any kind, nothing changes -- in every state, guard or not *)
+(* fetching: no event of any kind, nothing changes *)
 Lemma fetch_silent g st o : is_fetch o = true -> snd (step g st o) = [] /\ fst (fst (step g st o)) = st.
 Proof.
   destruct o; simpl; try discriminate; intros _.
@@ -194,22 +139,26 @@ Qed.
 
 (* ------------------------------------------------------------------ what gets stored *)
 Lemma step_table g st o :
-  clean st -> op_guard g o = true -> succeeded (snd (fst (step g st o))) = true ->
+  succeeded (snd (fst (step g st o))) = true ->
   k_tbl (ks (fst (fst (step g st o))) (op_cls o)) = spec_table g st o.
 Proof.
-  intros Hc Hg. destruct o as [k kw0|k id c v|k id kw0|k id|k id|k id fr|k]; unfold step; simpl op_cls.
+  destruct o as [k kw0|k id c v|k id kw0|k id|k id|k id fr|k];
+    [|rewrite step_assign_is_set; change (spec_table g st (OAssign k id c v)) with (spec_table g st (OSet k id [(c, v)]));
+      change (op_cls (OAssign k id c v)) with (op_cls (OSet k id [(c, v)])); set (kw0 := [(c, v)])| | | | |];
+    unfold step; simpl op_cls.
   - destruct (fill_defaults all_cols _) as [kw2|] eqn:Hf; [|simpl; discriminate].
     destruct (negb (validate kw2)); [simpl; discriminate|]. simpl. intros _.
     rewrite ks_set_same, (fill_defaults_with _ _ Hf). reflexivity.
   - unfold with_handle, spec_table.
     destruct (h_get id (k_hs (ks st k))) as [h|] eqn:Hh; [|simpl; discriminate].
-    rewrite (Hc k id h Hh). simpl in Hg. destruct (keeps_key_single _ _ _ _ Hg) as [v' Hv].
-    rewrite (assign_core_clean _ _ _ _ _ _ _ Hv), Hv, sort_cols_single. cbv zeta. unfold commit_ures.
-    destruct (negb (val_ok (col_ty c) v')); [simpl; discriminate|].
-    destruct (is_lazy k); simpl; intros _; rewrite ks_set_same; reflexivity.
+    rewrite set_core_plain. cbv zeta. unfold commit_ures.
+    destruct (negb (validate _)); [simpl; discriminate|].
+    destruct (is_lazy k); simpl; intros _; rewrite ks_set_same; [reflexivity|].
+    destruct (is_nil (sort_cols _)) eqn:E; simpl; [|reflexivity].
+    apply is_nil_true in E. rewrite E, tbl_update_nil. reflexivity.
   - unfold with_handle, spec_table.
     destruct (h_get id (k_hs (ks st k))) as [h|] eqn:Hh; [|simpl; discriminate].
-    rewrite (Hc k id h Hh), set_core_clean. cbv zeta. unfold commit_ures.
+    rewrite set_core_plain. cbv zeta. unfold commit_ures.
     destruct (negb (validate _)); [simpl; discriminate|].
     destruct (is_lazy k); simpl; intros _; rewrite ks_set_same; [reflexivity|].
     destruct (is_nil (sort_cols _)) eqn:E; simpl; [|reflexivity].
@@ -227,24 +176,23 @@ Proof.
 Qed.
 
 Lemma step_pend g st o k id :
-  clean st -> op_guard g o = true -> succeeded (snd (fst (step g st o))) = true ->
-  op_target o = Some (k, id) ->
+  succeeded (snd (fst (step g st o))) = true -> op_target o = Some (k, id) ->
   pend_of (fst (fst (step g st o))) k id = spec_pend g st o.
 Proof.
-  intros Hc Hg. destruct o as [k0 kw0|k0 id0 c v|k0 id0 kw0|k0 id0|k0 id0|k0 id0 fr|k0]; simpl op_target;
-    intros Hs Ht; try discriminate; inversion Ht; subst k0 id0; clear Ht; revert Hs; unfold step.
-  - unfold with_handle, spec_pend, pend_of.
+  destruct o as [k0 kw0|k0 id0 c v|k0 id0 kw0|k0 id0|k0 id0|k0 id0 fr|k0]; simpl op_target;
+    intros Hs Ht; try discriminate; inversion Ht; subst k0 id0; clear Ht; revert Hs.
+  - rewrite step_assign_is_set. change (spec_pend g st (OAssign k id c v)) with (spec_pend g st (OSet k id [(c, v)])).
+    unfold step, with_handle, spec_pend, pend_of.
     destruct (h_get id (k_hs (ks st k))) as [h|] eqn:Hh; [|simpl; discriminate].
-    rewrite (Hc k id h Hh). simpl in Hg. destruct (keeps_key_single _ _ _ _ Hg) as [v' Hv].
-    rewrite (assign_core_clean _ _ _ _ _ _ _ Hv), Hv. cbv zeta. unfold commit_ures.
-    destruct (negb (val_ok (col_ty c) v')); [simpl; discriminate|].
-    destruct (is_lazy k); simpl; intros _; rewrite ks_set_same; simpl; rewrite h_get_put_same; reflexivity.
-  - unfold with_handle, spec_pend, pend_of.
-    destruct (h_get id (k_hs (ks st k))) as [h|] eqn:Hh; [|simpl; discriminate].
-    rewrite (Hc k id h Hh), set_core_clean. cbv zeta. unfold commit_ures.
+    rewrite set_core_plain. cbv zeta. unfold commit_ures.
     destruct (negb (validate _)); [simpl; discriminate|].
     destruct (is_lazy k); simpl; intros _; rewrite ks_set_same; simpl; rewrite h_get_put_same; reflexivity.
-  - unfold with_handle, spec_pend, pend_of.
+  - unfold step, with_handle, spec_pend, pend_of.
+    destruct (h_get id (k_hs (ks st k))) as [h|] eqn:Hh; [|simpl; discriminate].
+    rewrite set_core_plain. cbv zeta. unfold commit_ures.
+    destruct (negb (validate _)); [simpl; discriminate|].
+    destruct (is_lazy k); simpl; intros _; rewrite ks_set_same; simpl; rewrite h_get_put_same; reflexivity.
+  - unfold step, with_handle, spec_pend, pend_of.
     destruct (h_get id (k_hs (ks st k))) as [h|] eqn:Hh; [|simpl; discriminate].
     unfold sync_core, commit_ures. destruct (is_nil (h_pend h)) eqn:E; simpl; intros _; rewrite ks_set_same; simpl;
       rewrite h_get_put_same; simpl; [apply is_nil_true in E; exact E|reflexivity].
